@@ -131,8 +131,9 @@ type Hist struct {
 	AckBehind   int
 	AckBehindOK int
 
-	Htlcs    []HtlcSecret
-	Projects []types.Hash
+	revokesAt []uint64
+	Htlcs     []HtlcSecret
+	Projects  []types.Hash
 
 	OnAccepted func(b *nom.AccountBlock, descr string)
 	OnMomentum func()
@@ -253,6 +254,24 @@ func (h *Hist) token(label string) types.ZenonTokenStandard {
 // Submit sends a template through the real supervisor and records the outcome.
 func (h *Hist) Submit(tpl *nom.AccountBlock, descr string) (*nom.AccountBlock, error) {
 	h.C.Checkpoint()
+	// with no active pillar left the node's election loops forever (nobody could produce anyway):
+	// the last active pillar is never revoked by the harness
+	if tpl.ToAddress == types.PillarContract && len(tpl.Data) >= 4 &&
+		string(tpl.Data[:4]) == string(definition.ABIPillars.Methods[definition.RevokeMethodName].Id()) {
+		st := h.A.Chain.GetFrontierAccountStore(types.PillarContract).Storage()
+		pending := 0
+		for _, ht := range h.revokesAt {
+			if ht+3 >= h.A.Height() {
+				pending++
+			}
+		}
+		if list, err := definition.GetPillarsList(st, true, definition.AnyPillarType); err == nil && len(list)-pending <= 1 {
+			h.C.Note("%s -> not sent (it would revoke the last active pillar)", descr)
+			h.C.Excluded("revoke-of-last-active-pillar")
+			return nil, fmt.Errorf("not sent")
+		}
+		h.revokesAt = append(h.revokesAt, h.A.Height())
+	}
 	if h.AckDepthMax > 0 && tpl.MomentumAcknowledged.IsZero() && h.C.Weighted("ack.behind", 3, 1) == 1 {
 		depth := uint64(h.C.Int("ack.depth", 1, h.AckDepthMax))
 		if fh := h.A.Height(); fh > depth {
